@@ -24,8 +24,24 @@ type Sub struct {
 // Switch is a boolean with a type name of its own.
 type Switch bool
 
+// Core and Base are embedded in Fact (Base directly, Core through Base). Fact's own I64 and S shadow Base.I64 and
+// Base.S; Base.Mid shadows Core.Mid; Deep is promoted through both levels. Generated rules spell each of these
+// locations in one way only: F.Base.I64, F.Base.S, F.Mid, F.Base.Core.Mid, F.Deep.
+type Core struct {
+	Deep int64
+	Mid  int64
+}
+
+type Base struct {
+	Core
+	I64 int64
+	S   string
+	Mid int64
+}
+
 // Fact is the main fact type. Every field is exported so the engine can reach it.
 type Fact struct {
+	Base
 	I8   int8
 	I16  int16
 	I32  int32
@@ -305,6 +321,11 @@ func (f *Fact) NilSub() *Sub { return nil }
 func (s *Sub) GetX() int64 { return s.X }
 
 func (s *Sub) Twice(v int64) int64 { return 2 * v }
+
+// Value-receiver methods (pure): callable on a Sub value and through a *Sub alike. Together with the
+// pointer-receiver methods they give Sub and *Sub method tables of different layout.
+func (s Sub) VTwice(v int64) int64 { return 2 * v }
+func (s Sub) VSeven() int64        { return 7 }
 
 // Counted probes on a Sub (pure: the result depends on the arguments only).
 func (s *Sub) hit(name string, id int64) {
